@@ -66,8 +66,8 @@ type vrUniverse struct {
 	Parent    []int      `json:"Parent"`
 	Height    []int      `json:"Height"`
 	NT        int        `json:"NT"`
-	TxPays    []int      `json:"TxPays"`
-	TxSpends  []int      `json:"TxSpends"`
+	TxOuts    [][]int    `json:"TxOuts"`
+	TxIns     [][]int    `json:"TxIns"`
 	ExtScript []int      `json:"ExtScript"`
 	BlockTxs  [][]int    `json:"BlockTxs"`
 	StartB    int        `json:"StartB"`
@@ -113,21 +113,26 @@ func (w *vrWorld) script(key string) []byte {
 
 func (w *vrWorld) watchAddr(a int) address.Address { return w.addr(fmt.Sprintf("addr-%d", a)) }
 
+// Outpoint ids: 10*t+j = output j of transaction t; 1..9 = external outpoints.
 // script id (address id) of outpoint o; 0 = a script nobody watches
 func (w *vrWorld) outScriptID(o int) int {
 	u := w.u
-	if o >= 1 && o <= u.NT {
-		return u.TxPays[o-1]
+	if o >= 10 {
+		t, j := o/10, o%10
+		if t <= u.NT && j < len(u.TxOuts[t-1]) {
+			return u.TxOuts[t-1][j]
+		}
+		return 0
 	}
-	if o > u.NT && o-u.NT <= len(u.ExtScript) {
-		return u.ExtScript[o-u.NT-1]
+	if o >= 1 && o <= len(u.ExtScript) {
+		return u.ExtScript[o-1]
 	}
 	return 0
 }
 
 func (w *vrWorld) outPoint(o int) wire.OutPoint {
-	if o >= 1 && o <= w.u.NT {
-		return wire.OutPoint{Hash: w.txs[o].TxHash(), Index: 0}
+	if o >= 10 && o/10 <= w.u.NT {
+		return wire.OutPoint{Hash: w.txs[o/10].TxHash(), Index: uint32(o % 10)}
 	}
 	return wire.OutPoint{Hash: vrHash(fmt.Sprintf("ext-%d", o)), Index: 0}
 }
@@ -143,26 +148,29 @@ func vrBuildWorld(u *vrUniverse) (*vrWorld, error) {
 	w := &vrWorld{u: u, params: chaincfg.SimNetParams, txID: map[chainhash.Hash]int{},
 		blkID: map[chainhash.Hash]int{}}
 	w.txs = make([]*wire.MsgTx, u.NT+1)
-	prevScript := make([][]byte, u.NT+1)
+	prevScripts := make([][][]byte, u.NT+1)
 	for t := 1; t <= u.NT; t++ {
 		tx := wire.NewMsgTx(2)
-		sp := u.TxSpends[t-1]
-		if sp != 0 {
-			if sp <= u.NT && sp >= t {
-				return nil, fmt.Errorf("tx %d spends output of later tx %d", t, sp)
+		for k, sp := range u.TxIns[t-1] {
+			if sp != 0 {
+				if sp >= 10 && sp/10 >= t {
+					return nil, fmt.Errorf("tx %d spends an output of tx %d", t, sp/10)
+				}
+				op := w.outPoint(sp)
+				tx.AddTxIn(wire.NewTxIn(&op, nil, nil))
+				prevScripts[t] = append(prevScripts[t], w.outPkScript(sp))
+			} else {
+				op := wire.OutPoint{Hash: vrHash(fmt.Sprintf("nobody-in-%d-%d", t, k)), Index: 1}
+				tx.AddTxIn(wire.NewTxIn(&op, nil, nil))
+				prevScripts[t] = append(prevScripts[t], w.script(fmt.Sprintf("nobody-prev-%d-%d", t, k)))
 			}
-			op := w.outPoint(sp)
-			tx.AddTxIn(wire.NewTxIn(&op, nil, nil))
-			prevScript[t] = w.outPkScript(sp)
-		} else {
-			op := wire.OutPoint{Hash: vrHash(fmt.Sprintf("nobody-in-%d", t)), Index: 1}
-			tx.AddTxIn(wire.NewTxIn(&op, nil, nil))
-			prevScript[t] = w.script(fmt.Sprintf("nobody-prev-%d", t))
 		}
-		if a := u.TxPays[t-1]; a != 0 {
-			tx.AddTxOut(wire.NewTxOut(1000, w.script(fmt.Sprintf("addr-%d", a))))
-		} else {
-			tx.AddTxOut(wire.NewTxOut(1000, w.script(fmt.Sprintf("nobody-pay-%d", t))))
+		for k, a := range u.TxOuts[t-1] {
+			if a != 0 {
+				tx.AddTxOut(wire.NewTxOut(1000, w.script(fmt.Sprintf("addr-%d", a))))
+			} else {
+				tx.AddTxOut(wire.NewTxOut(1000, w.script(fmt.Sprintf("nobody-pay-%d-%d", t, k))))
+			}
 		}
 		w.txs[t] = tx
 		w.txID[tx.TxHash()] = t
@@ -200,7 +208,7 @@ func vrBuildWorld(u *vrUniverse) (*vrWorld, error) {
 			mr := fmt.Sprintf("mr-%d", b)
 			for _, t := range u.BlockTxs[b] {
 				_ = mb.AddTransaction(w.txs[t])
-				prevs = append(prevs, prevScript[t])
+				prevs = append(prevs, prevScripts[t]...)
 				mr += "-" + w.txs[t].TxHash().String()
 			}
 			mb.Header.MerkleRoot = vrHash(mr)
